@@ -18,6 +18,12 @@ ONE = {
     'C16b': 'ProcessWorker._run moves the success report into an else: clause of the try (new landing points lose outcome and state)',
     'C17a': 'restart() merges the liveness check into "final result is None"',
     'C18a': 'context branch of RemoteServer.run: the reply variable is assigned per outcome and one outcome is missed (ported)',
+    'C13c': 'RemotePickler36(remote=False) starts from an empty private dispatch table instead of a copy of copyreg.dispatch_table',
+    'C14c': 'remote_reduce turns a falsy state into None ("nothing to restore"): no BUILD, __setstate__ never runs, the wrapper stays on the instance',
+    'C15c': 'break_patches returns early when the current object has no patches: no frames for its children, a grandchild closes its ancestor\'s frame (3-level chains)',
+    'C20c': '_run_frontend catches only ConnectionClosedError and sets the start-up event on two paths instead of in a finally: a refused control connection hangs the constructor',
+    'C02c': 'ProcessWorker._run reports type(e)(str(e)) instead of e: the error keeps its type but loses its arguments (process kind only)',
+    'C11c': '(see notes.md)',
     'C19b': 'active_children() prunes in two critical sections: a registration in between is lost',
 }
 for d in sorted(glob.glob('/verif/seeded/*/')):
